@@ -277,8 +277,8 @@ PROPS["C19"] = {
 PROPS["C01"] = {
     "level": "exploration",
     "claim": {
-        "technique": "runtime monitoring by differential replay: each generated program is executed in 10-11 separate processes under perturbed environments and the complete canonical trace and the capture file are compared by digest; valgrind memcheck for uninitialised flows",
-        "text": "Programs mix timers (ties, re-arming, cancel), TCP transfers through lossy finite queues, UDP bursts, resolver lookups, a NAT hop and capture logging, with all generator decisions drawn in handler execution order so a divergence amplifies. Environments: glibc MALLOC_PERTURB_ 0x55/0xAA/seed, ASLR off + large environment block + heap ballast, ASLR on + different ballast, 1-3 unrelated simulations run first in the same process, an LD_PRELOAD shim answering every wall-clock query with skewed time, the step hook absent (plain poll()), the ASan allocator, and memcheck.",
+        "technique": "runtime monitoring by differential replay: each generated program is executed in 12-13 separate processes under perturbed environments and the complete canonical trace and the capture file are compared by digest; valgrind memcheck for uninitialised flows",
+        "text": "Programs mix timers (ties, re-arming, cancel), TCP transfers through lossy finite queues (sockets moved in mid-stream, socket objects with an earlier life, connections given up by both ends with a backlog still queued), UDP bursts, resolver lookups, a NAT hop and capture logging (from the start or enabled in mid-run), with all generator decisions drawn in handler execution order so a divergence amplifies. Environments: glibc MALLOC_PERTURB_ 0x55/0xAA/seed, ASLR off + large environment block + heap ballast, ASLR on + different ballast, 1-3 unrelated simulations run first in the same process (in one environment ending normally, in another left through an exception thrown by a handler), an LD_PRELOAD shim answering every wall-clock query with skewed time, the step hook absent (plain poll()), the ASan allocator, and memcheck.",
         "note": "'Whatever the environment' is sampled over this finite set; dump_network_graph output (prints pointers) and library printf chatter are not part of the trace.",
         "ref": "DESIGN.md 3/C01",
     },
